@@ -342,7 +342,8 @@ func init() {
 		Title: "Vote-extension data reaches state only as signed; proposals stay coherent",
 		Funcs: fcNP("app.ProposalHandler.ProcessProposalHandler", "app.ProposalHandler.PreBlocker", "app.ProposalHandler.CheckInitialSignaturesFromLastCommit",
 			"app.ProposalHandler.CheckValsetSignaturesFromLastCommit", "app.ProposalHandler.CheckOracleAttestationsFromLastCommit", "app.ProposalHandler.SetEVMAddresses",
-			"x/bridge/keeper.Keeper.SetBridgeValsetSignature", "x/bridge/keeper.Keeper.SetOracleAttestation", "x/bridge/keeper.Keeper.SetEVMAddressByOperator", "x/bridge/keeper.Keeper.GetEVMAddressByOperator"),
+			"x/bridge/keeper.Keeper.SetBridgeValsetSignature", "x/bridge/keeper.Keeper.SetOracleAttestation", "x/bridge/keeper.Keeper.SetEVMAddressByOperator", "x/bridge/keeper.Keeper.GetEVMAddressByOperator",
+			"app.VoteExtHandler.VerifyVoteExtensionHandler"),
 		Assumptions: []string{
 			"json.Unmarshal is deterministic: the lengths of the lists it decodes are functions of the input bytes (jsonlen); nothing else about decoded content is modelled. reflect.DeepEqual on two slices implies equal lengths (and equal integer/string elements)",
 			"PreBlocker is entered only for blocks whose proposal ProcessProposal accepted (its precondition is ProcessProposal's postcondition on the same req.Txs[0]); stored validator sets have non-nil members",
@@ -352,7 +353,7 @@ func init() {
 			"that an honest proposer's proposal is always accepted, and that any single-element mutation of the injected data is rejected (element-wise equality through JSON round trips, nil versus empty lists) -- only the length alignment of the lists and 'every list was compared' are decided",
 			"that a validator's EVM address is registered once and from its own signatures: signature recovery is not modelled; only 'at most one registration per commit vote' and 'the setter writes exactly the given operator' are decided",
 			"ctx.ConsensusParams().Abci is dereferenced without a nil check in ProcessProposal and PreBlocker, and ProcessProposal indexes req.Txs[0] without a length check (a panic there is recovered by baseapp and rejects the proposal): these panic obligations are not claimed",
-			"extend_vote.go (construction and size checks of vote extensions) is not under contract",
+			"construction of a vote extension (ExtendVoteHandler: signing, keyring) is not under contract; VerifyVoteExtensionHandler is: a decodable extension is accepted only with signatures of at most 65 bytes and no more attestations than requested for the previous height, an undecodable one only from a validator without a registered EVM address, and the handler never returns an error",
 		},
 	})
 }
